@@ -248,6 +248,25 @@ def load(path_kind, lines, nt, scratch):
         if path_kind == "warm-cache":
             r = pint.UnitRegistry(p, cache_folder=cf, **kw)
         return r
+    if path_kind == "import-edited":
+        # a main file importing a second one, loaded through the disk cache; then ONLY the imported file is edited
+        # and the registry is built again from the same cache folder: the cache must notice
+        k = 1
+        p1, p2 = os.path.join(scratch, "main.txt"), os.path.join(scratch, "part2.txt")
+        with open(p1, "w", encoding="utf-8") as fh:
+            fh.write("\n".join(lines[:k]) + "\n@import part2.txt\n")
+        wrong = [ln.replace("7 * ua", "9 * ua").replace("3 * ub", "4 * ub").replace("offset: 5", "offset: 6") for ln in lines[k:]]
+        if wrong == list(lines[k:]):
+            raise core.HarnessError("the edited import must differ")
+        with open(p2, "w", encoding="utf-8") as fh:
+            fh.write("\n".join(wrong) + "\n")
+        cf = os.path.join(scratch, "cache")
+        pint.UnitRegistry(p1, cache_folder=cf, **kw)
+        with open(p2, "w", encoding="utf-8") as fh:
+            fh.write("\n".join(lines[k:]) + "\n")
+        st_ = os.stat(p2)
+        os.utime(p2, (st_.st_atime + 5, st_.st_mtime + 5))
+        return pint.UnitRegistry(p1, cache_folder=cf, **kw)
     if path_kind == "define":
         # one define() per statement (a block is one statement), on top of an empty registry
         r = pint.UnitRegistry(None, cache_folder=None, **kw)
@@ -272,7 +291,7 @@ def load(path_kind, lines, nt, scratch):
 
 
 LAYOUTS = ["plain", "spaces", "comments", "tabs"]
-PATHS = ["lines", "file", "import", "cold-cache", "warm-cache", "define", "import-early"]
+PATHS = ["lines", "file", "import", "cold-cache", "warm-cache", "define", "import-early", "import-edited"]
 
 
 def diff_keys(a, b, skip=()):
@@ -565,7 +584,7 @@ MANIFEST = {
     "text": "The bundled files are compared entry by entry with R1 (every spelling -> unit, symbol, aliases, converter kind and offset, every prefix spelling and value, transitive group and system membership, "
     "context names/aliases/defaults/rule counts, defaults). Three generated 34-line definition files (prefixes, base/derived units in a DAG with rational factors, placeholder symbol, aliases on the unit line and on @alias lines — probed bare, prefixed by name and by symbol, and pluralised —, an offset and a log "
     "unit, four groups with 'using' (incl. two that use two groups at once, the default group first and last), a system with both rule forms, a context with defaults/rules/redefinition, defaults) are loaded in EVERY permutation of 5 (6 thorough) free unit/prefix lines, cycling through 4 "
-    "layouts x 7 loading paths (lines, file, @import split, cold and warm disk cache, one define() per statement) in float, Decimal and Fraction: a 67-key read-only observation vector must equal R1's reading "
+    "layouts x 8 loading paths (lines, file, @import split, cold and warm disk cache, one define() per statement, an imported file edited between two cached loads) in float, Decimal and Fraction: a 67-key read-only observation vector must equal R1's reading "
     "(names, symbols, dimensionality, exact factors, roots, memberships) and the canonical loading's vector (conversions, system base units, context conversions, listings). 36 ill-formed shapes x 2 positions x 2 "
     "types must raise at load or first use.",
     "note": "Trusted: R1. System base-unit choice and context arithmetic are only compared across loadings here (absolute semantics: C14, C11). define()-after-construction listings are C13's subject and are not "
